@@ -1,2 +1,49 @@
-/-! Stub driver root for the Api hand model; replaced by the model's line-protocol driver. -/
-def main : IO Unit := IO.println "stub"
+import GeodeVerif.Model.Api
+import GeodeVerif.Num.Wire
+/-!
+# Line-protocol driver for the HTTP-API hand model (`apidrv`)
+
+Runs `Api.libF` — the generic handlers of `Model/Api.lean` instantiated with the GENERATED
+`GenF.Geodesy.vincinv/vincdir` (GRS80) and the `Float` angle model's `hp2dec`/`dec2hp`.
+One request per line, one response per line; numbers as 16 hex digits of their binary64 pattern.
+
+Requests
+* `vincinv <from> <to> <lat1> <lon1> <lat2> <lon2>`
+* `vincdir <from> <to> <lat1> <lon1> <azimuth1to2> <ell_dist>`
+  with `<from>`, `<to>` = `-` (parameter absent) or `s:<text>`; numbers `<hex>` or `none` (absent)
+* `routes`
+
+Responses: `OK <key>=<hex> <key>=<hex> <key>=<hex>` (the dictionary given to `jsonify`, source order),
+`ERR:<kind>`, or the routes separated by blanks.
+-/
+open Api Wire
+
+def pTy (s : String) : Option String := if s == "-" then none else some (pStr s)
+
+def wRes : Except Err (List (String × Float)) → String
+  | .ok l => "OK " ++ " ".intercalate (l.map fun (k, v) => k ++ "=" ++ PyF.hex v)
+  | .error e => "ERR:" ++ e.name
+
+def handle (toks : List String) : String :=
+  match toks with
+  | [] => "empty"
+  | ["vincinv", f, t, a, b, c, d] =>
+    wRes (handleVincinv libF { from_angle_type := pTy f, to_angle_type := pTy t,
+                               lat1 := pOpt a, lon1 := pOpt b, lat2 := pOpt c, lon2 := pOpt d })
+  | ["vincdir", f, t, a, b, c, d] =>
+    wRes (handleVincdir libF { from_angle_type := pTy f, to_angle_type := pTy t,
+                               lat1 := pOpt a, lon1 := pOpt b, azimuth1to2 := pOpt c, ell_dist := pOpt d })
+  | ["routes"] => " ".intercalate listRoutes
+  | _ => "BAD request"
+
+partial def loop (h : IO.FS.Stream) (out : IO.FS.Stream) : IO Unit := do
+  let line ← h.getLine
+  if line.isEmpty then return ()
+  let toks := (line.trimAscii.toString.splitOn " ").filter (· ≠ "")
+  out.putStrLn (handle toks)
+  loop h out
+
+def main : IO Unit := do
+  let out ← IO.getStdout
+  loop (← IO.getStdin) out
+  out.flush
